@@ -536,14 +536,14 @@ fn encode_args(
 
     // handle timeline first argument; this may come from @arg0 or the first standard argument
     let mut extra_arg = instr.explicit_extra_arg;
-    match arg_encodings_iter.peek() {
-        Some(&ArgEncoding::Integer { arg0: true, .. }) => {
+    match arg_encodings_iter.peek().copied() {
+        Some(arg0_enc@&ArgEncoding::Integer { arg0: true, .. }) => {
             arg_encodings_iter.next(); // consume it
             let first_normal_arg = args_iter.next().expect("type checker already checked arity");
 
             if extra_arg.is_none() {
                 assert!(!first_normal_arg.expect_raw().is_reg, "checked above");
-                extra_arg = Some(first_normal_arg.expect_raw().expect_int() as _);
+                extra_arg = Some(fit_int_arg(emitter, first_normal_arg, arg0_enc)?);
             } else {
                 // Explicit @arg0, but also drawn from args.
                 // To keep the type checker's job simpler, we took an argument from the argument list anyways,
@@ -585,6 +585,14 @@ fn encode_args(
         };
         // Verify this arg even applies to the param mask...
         if enc.contributes_to_param_mask() {
+            let is_reg = matches!(&arg.value, LowerArg::Raw(raw) if raw.is_reg) || matches!(&arg.value, LowerArg::Local { .. });
+            if is_reg && current_param_mask_bit == 0 {
+                // the mask has one bit per parameter, and we have run out of bits
+                return Err(emitter.emit(error!(
+                    message("too many arguments in instruction!"),
+                    primary(arg, "a register this late in the argument list cannot be marked in the parameter mask"),
+                )));
+            }
             if enc.is_always_immediate() && arg_bit != 0 {
                 // Warn if a register is used for an immediate arg
                 emitter.emit(warning!(
@@ -620,19 +628,19 @@ fn encode_args(
             => args_blob.write_i32(arg.expect_raw().expect_int()).expect("Cursor<Vec> failed?!"),
 
             | ArgEncoding::Integer { size: 2, format: ast::IntFormat { signed: true, radix: _ }, .. }
-            => args_blob.write_i16(arg.expect_raw().expect_int() as _).expect("Cursor<Vec> failed?!"),
+            => args_blob.write_i16(fit_int_arg(emitter, arg, enc)?).expect("Cursor<Vec> failed?!"),
 
             | ArgEncoding::Integer { size: 1, format: ast::IntFormat { signed: true, radix: _ }, .. }
-            => args_blob.write_i8(arg.expect_raw().expect_int() as _).expect("Cursor<Vec> failed?!"),
+            => args_blob.write_i8(fit_int_arg(emitter, arg, enc)?).expect("Cursor<Vec> failed?!"),
 
             | ArgEncoding::Integer { size: 4, format: ast::IntFormat { signed: false, radix: _ }, .. }
             => args_blob.write_u32(arg.expect_raw().expect_int() as _).expect("Cursor<Vec> failed?!"),
 
             | ArgEncoding::Integer { size: 2, format: ast::IntFormat { signed: false, radix: _ }, .. }
-            => args_blob.write_u16(arg.expect_raw().expect_int() as _).expect("Cursor<Vec> failed?!"),
+            => args_blob.write_u16(fit_int_arg(emitter, arg, enc)?).expect("Cursor<Vec> failed?!"),
 
             | ArgEncoding::Integer { size: 1, format: ast::IntFormat { signed: false, radix: _ }, .. }
-            => args_blob.write_u8(arg.expect_raw().expect_int() as _).expect("Cursor<Vec> failed?!"),
+            => args_blob.write_u8(fit_int_arg(emitter, arg, enc)?).expect("Cursor<Vec> failed?!"),
 
             | ArgEncoding::Integer { size, .. }
             => panic!("unexpected integer size: {size}"),
@@ -697,13 +705,6 @@ fn encode_args(
         }
     }
 
-    if current_param_mask_bit.trailing_zeros() > raw::ParamMask::BITS as _ {
-        return Err(emitter.emit(error!(
-            message("too many arguments in instruction!"),
-            primary(args[raw::ParamMask::BITS as usize], "too many arguments"),
-        )));
-    }
-
     Ok(RawInstr {
         time: instr.stmt_data.time,
         opcode: instr.opcode,
@@ -721,3 +722,12 @@ fn encode_args(
 }
 
 // =============================================================================
+
+/// Get an integer argument as the type of the field that stores it, or report that it does not fit.
+fn fit_int_arg<T: TryFrom<i32>>(emitter: &impl Emitter, arg: &Sp<LowerArg>, enc: &ArgEncoding) -> Result<T, ErrorReported> {
+    let value = arg.expect_raw().expect_int();
+    T::try_from(value).map_err(|_| emitter.emit(error!(
+        message("integer argument does not fit"),
+        primary(arg, "{value} does not fit in a {}", enc.descr()),
+    )))
+}
